@@ -310,6 +310,27 @@ func runCheck(p *PropDef, tier string, seed int64) int {
 	}
 	sort.Strings(funcKeys)
 	for _, full := range funcKeys {
+		if i := strings.Index(full, "$lit"); i >= 0 {
+			// contract of a function literal: <function key>$lit<k>
+			parent := w.Funcs[full[:i]]
+			k, _ := strconv.Atoi(full[i+4:])
+			if parent == nil {
+				demoted[full] = "function named by the contract no longer exists"
+				continue
+			}
+			li, fl := litInfo(w, parent, k)
+			if li == nil || li.Contract == nil {
+				demoted[full] = "function literal named by the contract no longer exists"
+				continue
+			}
+			res := genLit(w, li, fl)
+			if res.Err != "" {
+				demoted[full] = res.Err
+				continue
+			}
+			results = append(results, res)
+			continue
+		}
 		fi := w.Funcs[full]
 		if fi == nil {
 			demoted[full] = "function named by the contract no longer exists"
@@ -327,7 +348,12 @@ func runCheck(p *PropDef, tier string, seed int64) int {
 	}
 	var all []*Obligation
 	for _, r := range results {
-		all = append(all, r.Obls...)
+		for _, o := range r.Obls {
+			if o.Kind == "safe" && r.FI.Contract != nil && r.FI.Contract.NoSafety {
+				continue // not claimed here: these sites are swept (and listed when unproved) under C18
+			}
+			all = append(all, o)
+		}
 	}
 	// assumed (trusted) contracts of called functions are only valid for the code they were written for
 	stale := map[string]bool{}
